@@ -266,6 +266,30 @@ func ruleSingleDispatch(c *Ctx, rule string) {
 	}
 	lk := lookups[0]
 	d := desc(lk)
+	// "not found" is an untyped nil: the lookup's interface result is either the nil interface or the address of a
+	// descriptor (never a typed nil pointer boxed into the interface, which passes the caller's nil test / type switch
+	// and is then dereferenced)
+	if lf := staticCallee(lk); lf != nil {
+		if _, isIface := lf.Signature.Results().At(0).Type().Underlying().(*types.Interface); isIface {
+			nRet := 0
+			forEachReturnValue(lf, 0, func(v ssa.Value, at ssa.Instruction) {
+				nRet++
+				good := isNilConst(v)
+				if mi, isMI := v.(*ssa.MakeInterface); isMI {
+					switch x := stripConv(mi.X).(type) {
+					case *ssa.IndexAddr, *ssa.FieldAddr, *ssa.Alloc:
+						good = true
+					case *ssa.Const:
+						good = false
+					default:
+						_ = x
+					}
+				}
+				c.check(good, rule, w.Short(lf)+": returns the nil interface or the address of a descriptor", w.At(at), desc(v), "the method lookup returns "+desc(v)+" as interface{}: when that pointer is nil (method not found) the caller receives a NON-nil interface holding a nil pointer, its 'not found' test does not fire and the nil descriptor is dereferenced — an unknown method name panics the receive loop and ends every RPC of the tunnel")
+			})
+			c.floor(rule, nRet, 2, "return values of the method lookup")
+		}
+	}
 	// lookup(sd, parts[1])
 	var q *ssa.Call
 	if ex, ok := origin(lk.Call.Args[0]).(*ssa.Extract); ok && ex.Index == 0 {
@@ -679,11 +703,19 @@ func ruleWaitsReleased(c *Ctx, rule string) {
 				n++
 				sel := e.Instr.(*ssa.Select)
 				rel := ""
+				carrierCtx := ""
 				for _, st := range sel.States {
 					if st.Dir != types.RecvOnly {
 						continue
 					}
 					if call, ok := st.Chan.(*ssa.Call); ok && call.Call.IsInvoke() && call.Call.Method.Name() == "Done" {
+						// the context must be one the endpoint's own termination cancels: a context field, a derived
+						// context, or the caller's context parameter -- not the carrier stream's Context(), which only
+						// the transport ends (a local Close() does not cancel it)
+						if oc, isCall := origin(call.Call.Value).(*ssa.Call); isCall && oc.Call.IsInvoke() && oc.Call.Method.Name() == "Context" {
+							carrierCtx = desc(call.Call.Value)
+							continue
+						}
 						rel = "case <-" + desc(call.Call.Value) + ".Done()"
 					}
 					if fr, _, ok := loadedField(st.Chan); ok && rel == "" {
@@ -699,6 +731,10 @@ func ruleWaitsReleased(c *Ctx, rule string) {
 							_ = p
 						}
 					}
+				}
+				if rel == "" && carrierCtx != "" {
+					c.fail(rule, key, w.At(e.Instr), "the only context alternative of this blocking select is "+carrierCtx+".Done(), the carrier stream's own context: the endpoint's Close()/tear-down cancels its derived context, not the carrier's, so a waiter here is not released when the tunnel is closed locally (it hangs until the transport ends)")
+					continue
 				}
 				c.check(rel != "", rule, key, w.At(e.Instr), "released by "+rel, "this blocking select has no case that a termination function always fires (no ctx.Done() alternative and no channel that is closed on every termination path): the goroutine can wait forever when the RPC or tunnel ends")
 			case "chan-recv":
